@@ -62,7 +62,8 @@ pub fn run_file(c: &Case) -> Obs {
         Outcome::Panicked(m) => Obs::fail("Panic", "file-panic", m),
         Outcome::Done(Err(e)) => {
             // the generator only makes the writer refuse a mate position that is not an i32
-            let big = ms.iter().any(|r| r.mpos > i32::MAX as usize);
+            // ... or (once /repo refuses it: fixes 09 / 10) a name holding a NUL byte
+            let big = ms.iter().any(|r| r.mpos > i32::MAX as usize || r.name.contains("^@"));
             let o = Obs::ok(e.clone(), false);
             if big && e == "Err:InvalidInput" { o } else { o.with_verdict(fail("file-rejected", e)) }
         }
